@@ -217,6 +217,34 @@ class C10(PropBase):
                 lines += G.gen_lines(rng, rng.below(3))[1:]
             data = G.join(rng, lines, final_nl=not rng.chance(1, 4))
             add("long>=80K", data, G.sched_random(rng, len(data), style=rng.choice([1, 2, 3, 5])))
+        # 4b. the family of c10_band_everywhere_dependent, with the band line's length sampled across the whole band
+        #     (80 KiB <= content < 160 KiB): A (80 KiB with its newline) / B (short) / A' (80 KiB) / X (band) [/ more records].
+        #     Whole-slice reads drop X, readers whose reads return <= 80 KiB keep it (c10_fine_reads_exact), reads of 80 KiB + 1
+        #     and more may go either way: the model must agree with the real code on every one of them (no oracle verdict on
+        #     the result: the property exempts these lines; the callback half applies).
+        def band_file(xlen, good=True, more=0):
+            a = b"MODULE Linux x86 0 " + b"m" * 81900
+            b = b"FILE 1 " + b"b" * rng.range(1, 2000)
+            a2 = b"FILE 2 " + b"c" * 81912
+            x = (rng.choice([b"FILE 3 ", b"PUBLIC 10 0 ", b"FUNC 1000 10 0 "]) if good else b"BOGUS ")
+            x = x + b"x" * (xlen - len(x))
+            tail_lines = [b"FILE %d t%d" % (10 + j, j) for j in range(more)]
+            return b"\n".join([a, b, a2, x] + tail_lines) + b"\n"
+
+        band_lens = [81920, 81921, 100000, 120000, 136533, 136534, 163838, 163839]
+        for i in range(24 if quick else 400):
+            xlen = band_lens[i] if i < len(band_lens) else rng.range(81920, 163839)
+            data = band_file(xlen, good=(i % 5 != 4), more=rng.below(3))
+            add("band-family-whole", data)
+            c = rng.choice([1000, 4096, 10240, 16384, 40960, 81920, 81919])
+            add("band-family-fine", data, ["%d*%d" % (c, len(data) // c + 2)])
+            if i % 3 == 0:
+                c = rng.choice([81921, 90000, 100000, 163840, 200000])
+                add("band-family-coarse", data, ["%d*%d" % (c, len(data) // c + 2)])
+            if i % 2 == 0:      # parse_async: chunks of at most 80 KiB (c10_stream_fine_chunks_exact), with some empty chunks
+                c = rng.choice([4096, 16384, 65536, 81920])
+                cases.append(G.case(data, (), None) + " | " + " ".join(["%d*%d" % (c, len(data) // c + 1), "0", str(c)]))
+                dist["band-family-stream-fine"] = dist.get("band-family-stream-fine", 0) + 1
         # 5. parse_async over bodies with EMPTY chunks and bodies that FAIL (third section of the case: the body script).
         #    An empty chunk is not the end of the body; a failed body must never give a table (F-C10c).
         def add_s(kind, data, sched, script, tag=None):
@@ -288,6 +316,42 @@ class C10(PropBase):
             data = G.join(rng, lines, final_nl=not rng.chance(1, 4))
             toks = with_empties(G.sched_random(rng, len(data), style=rng.choice([2, 3, 5])), 20)
             add_s("stream-long>=80K", data, [], toks if i % 2 else toks[:rng.below(len(toks) + 1)] + ["E"])
+        # 6. SymbolFile::parse over a reader whose k-th read() call FAILS (segment tF<k>; model: C10/ReadFail.v, drive_rf):
+        #    every k up to past the last read of small files under whole-slice / 7-byte / 1-byte readers; random k on files with
+        #    long lines and on files outside the class
+        def add_f(kind, k, data, sched=(), tag=None):
+            cases.append("tF%d " % k + G.case(data, sched, tag))
+            dist[kind] = dist.get(kind, 0) + 1
+
+        for fno in range(4 if quick else 16):
+            pbad = [0, 0, 5][rng.below(3)]
+            lines = G.gen_lines(rng, 2 + rng.below(5 if quick else 10), pbad=pbad)
+            data = G.join(rng, lines, eol_mode=fno % 3, final_nl=(fno % 4 != 3))
+            if len(data) > (250 if quick else 800):
+                data = data[:(250 if quick else 800)]
+            n = len(data)
+            for k in range(0, 4):
+                add_f("readfail-whole", k, data)
+            for k in range(0, n // 7 + 4):
+                add_f("readfail-7", k, data, ["7*%d" % (n // 7 + 2)])
+            for k in range(0, n + 3):
+                add_f("readfail-trickle", k, data, ["1*%d" % (n + 2)])
+        for i in range(100 if quick else 1200):
+            lines = G.gen_lines(rng, rng.below(3))
+            for _ in range(1 + rng.below(4)):
+                t = rng.choice([G.around(rng, rng.choice([5120, 10240, 20480, 40960, 81920]), 6),
+                                rng.range(1, 81919), rng.range(60000, 81919), 81919, rng.below(3000)])
+                lines.append(G.long_line(rng, min(81919, max(0, t))))
+                if rng.chance(1, 2):
+                    lines += G.gen_lines(rng, rng.below(3))[1:]
+            data = G.join(rng, lines, eol_mode=rng.choice([0, 0, 1]), final_nl=not rng.chance(1, 5))
+            add_f("readfail-long", rng.below(40), data, G.sched_random(rng, len(data), style=rng.choice([1, 2, 3, 5, 6])))
+        for i in range(16 if quick else 160):
+            lines = G.gen_lines(rng, rng.below(3))
+            lines.append(G.long_line(rng, G.around(rng, rng.choice([81920, 100000, 163839, 163840, 200000, 400000]), 50)))
+            lines += G.gen_lines(rng, rng.below(3))[1:]
+            data = G.join(rng, lines, final_nl=not rng.chance(1, 4))
+            add_f("readfail-long>=80K", rng.below(30), data, G.sched_random(rng, len(data), style=rng.choice([1, 2, 3, 5])))
         self._dist = dist
         return cases, dist, True
 
@@ -363,6 +427,27 @@ class C10(PropBase):
             if not fuzzy and (f["A"].split(":")[0] != f["R"].split(":")[0] or f["AT"] != f["T"]):
                 return ("no line is in the alignment-dependent band (80..160 KiB), yet parse (sync reader) gives %s and parse_async gives %s "
                         "on the same input (tables equal: %s)" % (f["R"], f["A"], f["AT"] == f["T"]))
+        if "F" in f:
+            # SymbolFile::parse over a reader whose k-th read() fails: a prefix for the callback, never a table once the failing
+            # call was issued, and the undisturbed verdict when it never was
+            if f.get("fcbok") != "1":
+                return "parse (failing reader): the bytes passed to the callback, concatenated, are not a prefix of the input"
+            fcb = int(f["fcb"].split(",")[0])
+            if fcb > a["total"]:
+                return "parse (failing reader): callback received more bytes than the input has"
+            if f.get("ffail") == "1" and f["F"] == "OK":
+                return "a read() call failed, yet SymbolFile::parse returned a symbol table (callback: %d of %d bytes)" % (fcb, a["total"])
+            if f.get("ffail") == "1" and f["F"] != "E8:0":
+                return "a read() call failed, yet SymbolFile::parse did not report the load error but " + f["F"][:60]
+            if f["F"] == "OK" and fcb != a["total"]:
+                return "parse (failing reader) succeeded but the callback received %d of %d input bytes" % (fcb, a["total"])
+            if f.get("ffail") == "0":
+                lensf = a["line_lens"] + ([a["tail"]] if a["tail"] else [])
+                if f["F"].startswith("E8"):
+                    return "no read() call failed, yet SymbolFile::parse reports a load error"
+                if all(n < G.HALF for n in lensf) and f.get("feq") != "1":
+                    return ("all lines are shorter than 80 KiB and the failing read() call was never issued, yet streamed parsing gives %s "
+                            "and whole-buffer parsing gives %s" % (f["F"], f["W"]))
         lens = a["line_lens"] + ([a["tail"]] if a["tail"] else [])
         if all(n < G.HALF for n in lens) and f.get("eq") != "1":
             return ("all lines are shorter than 80 KiB, yet streamed parsing gives %s and whole-buffer parsing gives %s "
